@@ -15,6 +15,10 @@ CHECKS = {
             "TLC judges every 0x40 frame produced by the real apply() against the vendor layout (Trace_C10)",
             "Bounded-exhaustive model check of the layout plus TLC-judged frames from the real code for every field value, "
             "all setpoint x mode, all same-byte flag combinations and seeded random states.", "5 C10"),
+    "C11": ("TLA+ AcResponse.tla: TLC checks the three temperature clauses for all 256x10x2 inputs and that StateView inverts the "
+            "device packing (MC_C11); TLC judges the attributes of a fresh AirConditioner after refresh() for every raw body (Trace_C11)",
+            "Exhaustive in-model check of the temperature rule and the 0xC0 layout; real refresh() results judged by TLC for all raw "
+            "temperature bytes x tenths, all setpoint code pairs, all values of each flag byte, all lengths, both check styles.", "5 C11"),
 }
 
 
